@@ -264,6 +264,10 @@ public:
         if (code != control_code_e::auth && code != control_code_e::connack)
             return do_shutdown(asio::error::try_again);
 
+        // the flag bits of both CONNACK and AUTH are reserved and must be 0
+        if (((*_buffer_ptr)[0] & 0b00001111) != 0)
+            return do_shutdown(client::error::malformed_packet);
+
         auto varlen_ptr = _buffer_ptr->cbegin() + 1;
         auto varlen = decoders::type_parse(
             varlen_ptr, _buffer_ptr->cend(), decoders::basic::varint_
